@@ -73,3 +73,16 @@ fn k_gear_slot_type_slot_bijection() {
     }
     kani::cover!(true, "reachable");
 }
+
+//@unit props=C17 label=S tier=quick fn=gearsets::GearSets::from_existing bound="17-byte file: gear-set magic, stated content size 0, other header bytes symbolic, no content" stubs=fmt::format
+//@desc a gear-set file that holds only its header (any stated content size, including 0) yields None; it never panics
+#[kani::proof]
+#[kani::unwind(6)]
+#[kani::stub(alloc::fmt::format, stub_fmt)]
+fn k_gearsets_header_only_nopanic() {
+    let mut b: [u8; 17] = kani::any();
+    b[0] = 0x05; b[1] = 0x00; b[2] = 0x6d; b[3] = 0x00;
+    b[8] = 0; b[9] = 0; b[10] = 0; b[11] = 0; // stated content size 0
+    if let Some(g) = GearSets::from_existing(&b) { core::mem::forget(g); }
+    kani::cover!(true, "reachable");
+}
